@@ -830,3 +830,37 @@ impl<'g, G: AffineRepr, T: BorrowMut<Transcript>> Prover<'g, G, T> {
         Ok((proof, self.transcript))
     }
 }
+
+#[cfg(feature = "verif-hooks")]
+impl<'g, G: AffineRepr, T: BorrowMut<Transcript>> super::VerifTamper<G::ScalarField>
+    for Prover<'g, G, T>
+{
+    fn verif_overwrite_gate(
+        &mut self,
+        i: usize,
+        l: G::ScalarField,
+        r: G::ScalarField,
+        o: G::ScalarField,
+    ) {
+        if i < self.secrets.a_L.len() {
+            self.secrets.a_L[i] = l;
+            self.secrets.a_R[i] = r;
+            self.secrets.a_O[i] = o;
+        }
+    }
+}
+
+#[cfg(feature = "verif-hooks")]
+impl<'g, G: AffineRepr, T: BorrowMut<Transcript>> super::VerifTamper<G::ScalarField>
+    for RandomizingProver<'g, G, T>
+{
+    fn verif_overwrite_gate(
+        &mut self,
+        i: usize,
+        l: G::ScalarField,
+        r: G::ScalarField,
+        o: G::ScalarField,
+    ) {
+        self.prover.verif_overwrite_gate(i, l, r, o)
+    }
+}
